@@ -433,6 +433,28 @@ func vRunC09(c *vCase) {
 		hasTrig[ch] = vChance(r, 0.7)
 	}
 	hasTrig[r.Intn(nchan)] = true
+	// in a third of the generic cases one channel triggers on a timer instead (auto trigger) and is never a receiver: every record
+	// it emits is a primary, and each of them is owed to its receivers as a secondary like any other primary
+	autoCh := -1
+	if !lanceroTyped && nchan >= 3 && vChance(r, 0.33) {
+		autoCh = r.Intn(nchan)
+		hasTrig[autoCh] = false // (no planted pulses on it; its stream is flat)
+		var ats TriggerState
+		ats.AutoTrigger = true
+		ats.AutoDelay = time.Duration(nsamp*(2+r.Intn(3))) * period
+		if err := ds.ChangeTriggerState(&FullTriggerState{ChannelIndices: []int{autoCh}, TriggerState: ats}); err != nil {
+			c.Inconclusive("setup", "%v", err)
+			return
+		}
+		stillOne := false
+		for ch := range hasTrig {
+			stillOne = stillOne || hasTrig[ch]
+		}
+		if !stillOne {
+			hasTrig[(autoCh+1)%nchan] = true
+		}
+		c.Cov("cases_with_an_auto_triggered_source", 1)
+	}
 	var ts TriggerState
 	ts.EdgeTrigger, ts.EdgeRising, ts.EdgeLevel = true, true, 500
 	for ch := 0; ch < nchan; ch++ {
@@ -575,6 +597,12 @@ func vRunC09(c *vCase) {
 		if step == 0 && earliest && firstOwner >= 0 && nchan > 1 {
 			// the channel of that first pulse feeds another channel from the start
 			rx := (firstOwner + 1 + r.Intn(nchan-1)) % nchan
+			if rx == autoCh {
+				rx = (rx + 1) % nchan
+				if rx == firstOwner {
+					rx = (rx + 1) % nchan
+				}
+			}
 			ds.ChangeGroupTrigger(true, &GroupTriggerState{Connections: map[int][]int{firstOwner: {rx}}})
 			model[vPair{firstOwner, rx}] = true
 			hist = append(hist, fmt.Sprintf("add %d>%d", firstOwner, rx))
@@ -589,6 +617,12 @@ func vRunC09(c *vCase) {
 				var desc []string
 				for q := 0; q < np; q++ {
 					s, rx := idx(), idx()
+					if autoCh >= 0 && rx == autoCh {
+						rx = (autoCh + 1) % nchan
+					}
+					if autoCh >= 0 && vChance(r, 0.4) {
+						s = autoCh
+					}
 					conns[s] = append(conns[s], rx)
 					desc = append(desc, fmt.Sprintf("%d>%d", s, rx))
 				}
@@ -687,12 +721,17 @@ func vRunC09(c *vCase) {
 				return
 			}
 			// the first record of a channel at a frame where it has a planted pulse is its primary; any further one is a secondary
+			if ch == autoCh {
+				prim[ch] = append(prim[ch], rel) // never a receiver: everything it emits is a primary
+				c.Cov("auto_primaries", 1)
+				continue
+			}
 			if owner[rel][ch] && !seenPrim[vPair{ch, rel}] {
 				seenPrim[vPair{ch, rel}] = true
 				prim[ch] = append(prim[ch], rel)
 			} else {
 				sec[ch] = append(sec[ch], rel)
-				if _, planted := owner[rel]; !planted {
+				if _, planted := owner[rel]; !planted && autoCh < 0 {
 					c.Violate("c09:unexplained-record", "record %s is neither a planted primary nor at the frame of any primary", vFmtRec(rec))
 					return
 				}
